@@ -36,8 +36,8 @@ ASSUMPTIONS = [
     'zero with a length unit may lose the unit (stated by the property)',
 ]
 MIN_EVENTS = {
-    'quick': {'oracle.nested': 500, 'oracle.reassign': 300, 'oracle.number': 40000, 'oracle.hash': 20000, 'oracle.color': 2000, 'oracle.string': 3000, 'contract.do_css_Value': 40000, 'contract._hash': 10000},
-    'thorough': {'oracle.nested': 500, 'oracle.reassign': 300, 'oracle.number': 800000, 'oracle.hash': 300000, 'oracle.color': 30000, 'oracle.string': 60000, 'contract.do_css_Value': 800000, 'contract._hash': 100000},
+    'quick': {'oracle.nested': 500, 'oracle.reassign': 600, 'oracle.reassign-declaration': 3000, 'oracle.number': 40000, 'oracle.hash': 20000, 'oracle.color': 2000, 'oracle.string': 3000, 'contract.do_css_Value': 40000, 'contract._hash': 10000},
+    'thorough': {'oracle.nested': 500, 'oracle.reassign': 600, 'oracle.reassign-declaration': 3000, 'oracle.number': 800000, 'oracle.hash': 300000, 'oracle.color': 30000, 'oracle.string': 60000, 'contract.do_css_Value': 800000, 'contract._hash': 100000},
 }
 
 UNITS = ['', '%', 'px', 'em', 'ex', 'cm', 'mm', 'in', 'pt', 'pc', 'deg', 's', 'ms', 'Hz', 'PX', 'x']
@@ -492,6 +492,23 @@ def judge_string(ctx, cssutils, src, content, is_url, feats):
             back = parse_value(cssutils, out3)
             if acc3 != acc or out3 != out or not back.wellformed or len(back) != 1 or back[0].uri != acc2:
                 ctx.violation('string.uri-write-through', case, {'uri_before': acc, 'uri_after': acc3, 'out_before': out, 'out_after': out3}, features=feats)
+        if any(ord(c) > 127 for c in content):
+            # a sheet kept in an encoding that cannot hold the characters writes them as escapes: the content stays what it was
+            for enc in ('ascii', 'iso-8859-1'):
+                ctx.count('oracle.string-narrow-sheet')
+                sheet = cssutils.parseString('a{x:%s}' % src)
+                sheet.encoding = enc
+                data = sheet.cssText
+                again = cssutils.parseString(data)
+                try:
+                    v = again.cssRules[1].style.getProperty('x').propertyValue[0]
+                    acc4 = v.uri if is_url else v.value
+                except Exception:
+                    acc4 = None
+                if acc4 is None or not content_equal(acc4, content):
+                    ctx.violation('string.narrow-sheet', dict(case, encoding=enc), {'bytes': repr(data), 'accessor_after': acc4}, features=feats)
+                    return
+                ctx.seen('SN' + enc + src)
         ctx.seen('S' + src)
     except Exception as e:
         ctx.violation('string.exception', case, {'tb': core.short_tb(e)}, features=feats, site=core.raise_site(e))
@@ -588,7 +605,9 @@ def stream_nested(ctx, cssutils):
         ctx.seen('N' + form + a)
 
 
-REASSIGN = ['18px', '50%', '1.5', '0', '-2em', '+3', '#abc', 'red', 'rgb(1, 2, 3)', 'url(a.png)', '"s"', 'auto', 'calc(1px + 2px)', '0.5em', '100', '10.50%', 'hsl(120, 50%, 50%)', 'url("b c.png")']
+REASSIGN = ['18px', '50%', '1.5', '0', '-2em', '+3', '#abc', 'red', 'rgb(1, 2, 3)', 'url(a.png)', '"s"', 'auto', 'calc(1px + 2px)', '0.5em', '100', '10.50%', 'hsl(120, 50%, 50%)', 'url("b c.png")',
+            # spellings that differ from a neighbour in letter case or in an escape only: for strings and URLs that is another content
+            '"S"', 'url(A.png)', 'url("B c.png")', '"\\73 "', 'url(a.PNG)', '"s" "t"', '"S" "t"', 'RED', '18PX']
 
 
 def value_view(v):
@@ -599,6 +618,32 @@ def value_view(v):
         except Exception as e:
             out.append('EXC ' + type(e).__name__)
     return out
+
+
+def reassign_declaration(ctx, cssutils, case):
+    first, second, door = case['first'], case['second'], case['door']
+    try:
+        core.canonical_state(cssutils, raising=False)
+        name = 'content' if door == 'attribute' else 'x'
+        style = cssutils.parseString('a{%s:%s}' % (name, first)).cssRules[0].style
+        fresh = cssutils.parseString('a{%s:%s}' % (name, second)).cssRules[0].style
+        if door == 'setProperty':
+            style.setProperty(name, second)
+        elif door == 'setitem':
+            style[name] = second
+        elif door == 'property-value':
+            style.getProperty(name).value = second
+        elif door == 'property-propertyValue':
+            style.getProperty(name).propertyValue = second
+        else:
+            style.content = second
+        got = [value_view(x) for x in style.getProperty(name).propertyValue] + [style.getPropertyValue(name), style.cssText]
+        want = [value_view(x) for x in fresh.getProperty(name).propertyValue] + [fresh.getPropertyValue(name), fresh.cssText]
+        core.canonical_state(cssutils)
+        if got != want:
+            ctx.violation('value.reassign-declaration', case, {'after_reassignment': got, 'fresh_object': want})
+    except Exception as e:
+        ctx.violation('value.exception', case, {'tb': core.short_tb(e)}, site=core.raise_site(e))
 
 
 def stream_reassign(ctx, cssutils):
@@ -623,6 +668,15 @@ def stream_reassign(ctx, cssutils):
             ctx.seen(['re', type(v).__name__, first, second])
         except Exception as e:
             ctx.violation('value.exception', case, {'tb': core.short_tb(e)}, site=core.raise_site(e))
+    # the same through the doors of the declaration block: a declaration that is set again holds the new value, whatever the old one was
+    doors = ['setProperty', 'setitem', 'property-value', 'property-propertyValue', 'attribute']
+    for i, (first, second) in ctx.share(pairs):
+        for door in doors:
+            case = {'kind': 'reassign-decl', 'first': first, 'second': second, 'door': door}
+            ctx.count('oracle.reassign-declaration')
+            ctx.count('evaluations')
+            reassign_declaration(ctx, cssutils, case)
+            ctx.seen(['re-d', door, first, second])
     core.canonical_state(cssutils)
 
 
@@ -653,6 +707,11 @@ def replay(ctx, case):
         core.canonical_state(cssutils)
         if got != want:
             ctx.violation('value.reassign', case, {'after_reassignment': got, 'fresh_object': want})
+        return
+    if case.get('kind') == 'reassign-decl':
+        cssutils, _ = core.import_repo()
+        reassign_declaration(ctx, cssutils, case)
+        core.canonical_state(cssutils)
         return
     _replay_other(ctx, case)
 
